@@ -175,6 +175,20 @@ def store_case(ops):
                 for r in rows:
                     model['1m'][r[0]] = r
                 tf = '1m'
+            elif kind == 'batch-mixed':
+                # one batch through batch_add_candle: new minutes, one of them delivered twice inside the batch (a forming candle
+                # followed by its final version) or followed by an older minute of the same batch
+                n = op[2]
+                ts_list = [last + MIN * (i + 1) for i in range(n)]
+                j = op[3] % n
+                ts_list = ts_list[:j + 1] + [ts_list[max(0, j - (op[4] % 2))]] + ts_list[j + 1:]
+                rows = [mk(t) for t in ts_list]
+                what = 'batch-mixed'
+                store.candles.batch_add_candle(np.array(rows), EX, sym, '1m', with_generation=False)
+                for r in rows:
+                    model['1m'][r[0]] = r
+                flags.add('batch-with-a-repeated-minute')
+                tf = '1m'
             elif kind == 'batch-repeat':
                 n = min(op[2], len(model['1m']))
                 if n == 0:
@@ -213,7 +227,7 @@ def store_case(ops):
     return vios, flags
 
 
-def spacing_case(spacing_ms, which_route, fast, only_first=False):
+def spacing_case(spacing_ms, which_route, fast, only_first=False, warm=False):
     from vf.drive import session
     from vf.gen import candles as gc
     rows = {s: gc.prng_rows(3 + i, 30, 0.5, 400) for i, s in enumerate(['BTC-USDT', 'ETH-USDT'])}
@@ -229,13 +243,17 @@ def spacing_case(spacing_ms, which_route, fast, only_first=False):
         for i, r in enumerate(rows[bad]):
             r[0] = rows[bad][0][0] + i * spacing_ms if i else r[0]
     script = dict(rows=[{'act': 'none'}], tick=0.5, unit=0.1)
-    spec = dict(cfg=dict(type='futures', fee=0.0, balance=10000.0, leverage=2, mode='cross', warm_up=0),
-                routes=[dict(symbol=s, timeframe='1m') for s in rows if s != 'LTC-USDT'], data=data, candles=rows, warmup=None,
+    warmup = None
+    if warm:
+        # properly spaced warm-up candles for every symbol: they must not stand in for the trading candles in the validation
+        warmup = {s_: gc.warmup_rows(11 + i, 10, 0.5, round(rows[s_][0][1] / 0.5), t0=rows[s_][0][0]) for i, s_ in enumerate(rows)}
+    spec = dict(cfg=dict(type='futures', fee=0.0, balance=10000.0, leverage=2, mode='cross', warm_up=10 if warm else 0),
+                routes=[dict(symbol=s, timeframe='1m') for s in rows if s != 'LTC-USDT'], data=data, candles=rows, warmup=warmup,
                 scripts={s: script for s in rows if s != 'LTC-USDT'}, fast=fast)
     r = session.run(spec, obs='off')
     err = r['error']['type'] if r['error'] else None
     if spacing_ms != MIN and err != 'ValueError':
-        return [('C20:backtest:bad-spacing-accepted' + ('' if spacing_ms > MIN else ':below-one-minute') + {0: '', 1: ':second-route', 2: ':data-only-symbol'}[which_route],
+        return [('C20:backtest:bad-spacing-accepted' + ('' if spacing_ms > MIN else ':below-one-minute') + {0: '', 1: ':second-route', 2: ':data-only-symbol'}[which_route] + (':with-warm-up' if warm else ''),
                  f'research.backtest accepted candles whose first two timestamps are {spacing_ms} ms apart on {bad} (error={err})')]
     if spacing_ms == MIN and err is not None:
         return [(f'C20:backtest:valid-spacing-raised-{err}', str(r['error']['msg'])[:300])]
@@ -250,7 +268,7 @@ def replay(case):
     if k == 'store':
         return store_case(case['ops'])[0]
     if k == 'spacing':
-        return spacing_case(case['spacing_ms'], case['which_route'], case['fast'], case.get('only_first', False))
+        return spacing_case(case['spacing_ms'], case['which_route'], case['fast'], case.get('only_first', False), case.get('warm', False))
     raise ValueError(k)
 
 
@@ -318,6 +336,7 @@ def run_shard(acc, shard, nshards, seed, tier):
         st.tuples(st.just('batch-new'), st.just('1m'), st.integers(1, 40), st.booleans()),
         st.tuples(st.just('batch-repeat'), st.just('1m'), st.integers(1, 8), st.booleans()),
         st.tuples(st.just('batch-overlap'), st.just('1m'), st.integers(1, 6), st.integers(1, 6)),
+        st.tuples(st.just('batch-mixed'), st.just('1m'), st.integers(2, 8), st.integers(0, 7), st.integers(0, 1)),
     ).map(list)
 
     def chk_store(ops):
@@ -329,13 +348,13 @@ def run_shard(acc, shard, nshards, seed, tier):
                       describe=lambda ops: dict(kind='store', ops=ops))
 
     spacings = [MIN, 0, 1, 30_000, 59_999, 60_001, 120_000, 300_000, -60_000, 3_600_000]
-    combos = [(s, w, f, o) for s in spacings for w in (0, 1, 2) for f in (False, True) for o in (False, True)]
-    for i, (s, w, f, o) in enumerate(combos):
+    combos = [(s, w, f, o, wm) for s in spacings for w in (0, 1, 2) for f in (False, True) for o in (False, True) for wm in (False, True)]
+    for i, (s, w, f, o, wm) in enumerate(combos):
         if i % nshards != shard:
             continue
-        vios = spacing_case(s, w, f, o)
-        acc.case(key=('spacing', s, w, f, o), nontrivial=s != MIN, classes=['spacing'], sub='backtest-spacing',
-                 sample=dict(kind='spacing', spacing_ms=s, which_route=w, fast=f, only_first=o) if i % 7 == 0 else None)
+        vios = spacing_case(s, w, f, o, wm)
+        acc.case(key=('spacing', s, w, f, o, wm), nontrivial=s != MIN, classes=['spacing' + (':with-warm-up' if wm else '')], sub='backtest-spacing',
+                 sample=dict(kind='spacing', spacing_ms=s, which_route=w, fast=f, only_first=o, warm=wm) if i % 7 == 0 else None)
         for sig, msg in vios:
-            acc.violation(sig, msg, dict(kind='spacing', spacing_ms=s, which_route=w, fast=f, only_first=o))
-    acc.mark_exhaustive('backtest-spacing', f'{len(spacings)} spacings x first route / second route / data-only symbol x both simulators x (all candles / only the leading pair badly spaced)')
+            acc.violation(sig, msg, dict(kind='spacing', spacing_ms=s, which_route=w, fast=f, only_first=o, warm=wm))
+    acc.mark_exhaustive('backtest-spacing', f'{len(spacings)} spacings x first route / second route / data-only symbol x both simulators x (all candles / only the leading pair badly spaced) x (no warm-up / well-spaced warm-up candles passed)')
